@@ -10,6 +10,7 @@ import (
 	"github.com/hashicorp/hcl/v2/hclsyntax"
 	hcljson "github.com/hashicorp/hcl/v2/json"
 
+	"verif/engine/h/gen"
 	"verif/engine/h/seeds"
 	"verif/engine/vf"
 )
@@ -350,5 +351,23 @@ func H_JSONRanges() {
 			}
 		}
 	}
+	vf.Reach("ok")
+}
+
+// H_RangesGen: tiling, positions and range fidelity for every expression derivable
+// from the grammar of package gen (depth bound), in three spacing styles.
+func H_RangesGen() {
+	sp := vf.Concretize(vf.Choice(3))
+	e := gen.Expr(vf.Param("depth", 1), sp)
+	src := []byte("a = " + e + "\nblk \"l\" {\n  b = " + e + "\n}\n")
+	vf.Observe("src", string(src))
+	toks, _ := hclsyntax.LexConfig(src, "g.hcl", hcl.InitialPos)
+	checkTiling(src, toks, "gen")
+	f, diags := hclsyntax.ParseConfig(src, "g.hcl", hcl.InitialPos)
+	if diags.HasErrors() {
+		vf.Reach("error")
+		return
+	}
+	checkBodyRanges(src, f.Body.(*hclsyntax.Body))
 	vf.Reach("ok")
 }
